@@ -764,9 +764,8 @@ class RZILTransformer(Transformer):
             name = f"op_{t.name}"
             a = items[0]
             b = items[2] if len(items) == 3 else None
-            if a and b:
-                # No need to check for single operand operations.
-                a, b = self.cast_operands(a=a, b=b, immutable_a=False)
+            # The operands of && and || are not converted to a common type.
+            # Each one is compared to zero on its own.
             v = BooleanOp(name, a, b, t)
         return self.add_op(v)
 
